@@ -292,7 +292,7 @@ func trunc(s string, n int) string {
 // solve discharges one query: old z3 first (fast on the common case), then all three raced.
 func solve(q *Query, c *Contracts, dir string, timeout int, cross bool) *SolveResult {
 	first := timeout
-	if !q.Cover && !cross && timeout > 3 {
+	if !q.Cover && !cross && timeout > 3 && q.Run != nil {
 		first = 3
 	}
 	res := solveScript(q, c, dir, first, cross, q.PC, "")
